@@ -60,6 +60,7 @@ def run(prop, seed, tier):
             if err:
                 continue            # an invalid random cross reference (e.g. unlimited not last): not a C16 case
             want = layout_of(nodes['single'])
+            mod1 = [None]
             # split
             cuts = sorted(rng.sample(range(1, len(lines)), min(3, len(lines) - 1)))
             parts = [lines[a:b] for a, b in zip([0] + cuts, cuts + [len(lines)])]
@@ -102,6 +103,16 @@ def run(prop, seed, tier):
                         os.chdir(out)
                         main = os.path.relpath(main, out)
                     nodes2, err2, _ = lib.run_prophyc([main, '--python_out', out, '--quiet'] + args_extra)
+                    if not err2 and arrangement != 'othercwd':
+                        # the per-file outputs of the files it includes (every file is an input of its own run)
+                        for i, nm in enumerate(names[:-1]):
+                            where = d if arrangement in ('flat', 'diamond', 'emptyfile') else incdir
+                            _, e3, _ = lib.run_prophyc([os.path.join(where, nm + '.prophy'), '--python_out', out, '--quiet'] + args_extra)
+                            if e3:
+                                err2 = 'included file %s alone: %s' % (nm, e3)
+                                break
+                        if arrangement == 'emptyfile' and not err2:
+                            _, e3, _ = lib.run_prophyc([os.path.join(d, 'empty.prophy'), '--python_out', out, '--quiet'])
                 finally:
                     os.chdir(cwd)
                 cases += 1
@@ -113,6 +124,49 @@ def run(prop, seed, tier):
                     diff = [k for k in want if got.get(k) != want[k]]
                     fail('layout:' + arrangement, single, '%s arrangement differs from the single file for %r: %r vs %r'
                          % (arrangement, diff[:2], [got.get(k) for k in diff[:2]], [want[k] for k in diff[:2]]))
+                    continue
+                if arrangement == 'othercwd':
+                    continue
+                # the generated modules, together, are usable like the single-file module: the last one imports, and what
+                # it defines or imports has the same static size
+                try:
+                    if mod1[0] is None:
+                        mod1[0] = lib.import_generated(os.path.join(base, 'out_single'), 'single')
+                    mod2 = lib.import_generated(out, names[-1])
+                except Exception as ex:
+                    fail('import:' + arrangement, single, '%s arrangement: the generated modules do not import: %r' % (arrangement, ex))
+                    continue
+                for k in want:
+                    a, b = getattr(mod1[0], k, None), getattr(mod2, k, None)
+                    if a is not None and b is not None and getattr(a, '_SIZE', None) != getattr(b, '_SIZE', None):
+                        fail('module:' + arrangement, single, '%s: %s has _SIZE %r in the split modules, %r in the single one'
+                             % (arrangement, k, getattr(b, '_SIZE', None), getattr(a, '_SIZE', None)))
+        # a file named like the definition it holds (one definition per file), reached along two include paths, the
+        # intermediate file included before the leaf
+        d = sc.path('stems')
+        os.makedirs(d)
+        files = {'Color': 'enum Color { Color_Red = 1, Color_Blue = 2 };\n',
+                 'Point': 'struct Point { u16 x; u16 y; };\n',
+                 'Shape': '#include "Color.prophy"\n#include "Point.prophy"\nstruct Shape { Color c; Point p<2>; };\n',
+                 'Scene': '#include "Shape.prophy"\n#include "Point.prophy"\n#include "Color.prophy"\nstruct Scene { Shape s; Color c; Point o; };\n'}
+        for nm, text in files.items():
+            open(os.path.join(d, nm + '.prophy'), 'w').write(text)
+        out = os.path.join(d, 'out')
+        os.makedirs(out)
+        bad = None
+        for nm in files:
+            _, e3, _ = lib.run_prophyc([os.path.join(d, nm + '.prophy'), '--python_out', out, '--quiet'])
+            bad = bad or e3
+        cases += 1
+        if bad:
+            fail('rejected:stems', repr(files), 'one definition per file, files named after them: rejected: %s' % str(bad)[:200])
+        else:
+            try:
+                m = lib.import_generated(out, 'Scene')
+                if (m.Scene._SIZE, m.Shape._SIZE) != (24, 16):
+                    fail('module:stems', repr(files), 'Scene/Shape sizes %r, documented (24, 16)' % ((m.Scene._SIZE, m.Shape._SIZE),))
+            except Exception as ex:
+                fail('import:stems', repr(files), 'files named after their definitions: the generated modules do not import: %r' % ex)
         # error cases
         d = sc.path('errs')
         os.makedirs(d)
